@@ -58,6 +58,9 @@ func (c05) Run(c *run.Ctx, phase, idx int) {
 	hostileInputs(c.Env, phase, idx, func(kind string, in []byte) {
 		n++
 		c05Read(c, m, kind, in)
+		if kind == "foreign-props" {
+			return // a direct decode in between would take over whatever per-decode state is at stake
+		}
 		if h, err := ref.ParseHeader(in); err == nil && len(in) >= h.Total() && h.RemLen > 0 {
 			c05Unmarshal(c, m, kind, int(h.First>>4), in[h.HdrLen:h.Total()])
 		}
@@ -169,6 +172,7 @@ func c05Read(c *run.Ctx, m *mon.Meter, kind string, in []byte) {
 	c.Distinct(run.HashBytes(1, in), entered)
 	c05Judge(c, m, "ReadPacket", T, kind, L, in)
 	if res.Accepted() {
+		c05Keep(c, res.Pkt, in)
 		c05Lists(c, "ReadPacket", T, kind, res.Pkt, len(in), in)
 		c.Count("outcome", "ReadPacket/packet", 1)
 		if c.WantSample() && entered && kind != "arbitrary" {
@@ -203,6 +207,51 @@ func c05Unmarshal(c *run.Ctx, m *mon.Meter, kind string, t int, body []byte) {
 			c.Count("outcome", "UnmarshalBinary/nil", 1)
 		} else {
 			c.Count("outcome", "UnmarshalBinary/error", 1)
+		}
+	}
+}
+
+// c05Ring remembers the last packets ReadPacket returned, each with the
+// frame it came from: "no input makes decoding grow a packet without bound"
+// also holds for a packet that was returned earlier and is grown by the
+// decoding of later, unrelated frames.
+type c05Kept struct {
+	p    mq.Packet
+	in   []byte
+	lens map[string]int
+}
+
+var c05Ring [16]c05Kept
+var c05RingN int
+
+func c05Keep(c *run.Ctx, p mq.Packet, in []byte) {
+	if len(in) > 4096 {
+		return
+	}
+	var lens0 map[string]int
+	if pan := mon.Guard(func() { lens0 = listLens(p) }); pan != nil {
+		return
+	}
+	c05Ring[c05RingN%len(c05Ring)] = c05Kept{p, append([]byte(nil), in...), lens0}
+	c05RingN++
+	if c05RingN%4 != 0 {
+		return
+	}
+	for _, k := range c05Ring {
+		if k.p == nil {
+			continue
+		}
+		var lens map[string]int
+		if pan := mon.Guard(func() { lens = listLens(k.p) }); pan != nil {
+			continue
+		}
+		for _, name := range []string{"userprops", "will.userprops", "subids", "filters", "codes"} {
+			if n, ok := lens[name]; ok && n > k.lens[name] {
+				c.Violation("C05/earlier-packet-grew/"+tname(bind.TypeOf(k.p))+"/"+name, fmt.Sprintf("a packet returned earlier from a %d-byte frame held %d %s and now holds %d: later decodes keep growing it", len(k.in), k.lens[name], name, n),
+					map[string]interface{}{"frame_of_the_grown_packet": hexClip(k.in, 1024), "last_input": hexClip(in, 1024)})
+				c05Ring = [16]c05Kept{}
+				return
+			}
 		}
 	}
 }
